@@ -153,6 +153,15 @@ Proof.
   - apply andb_true_iff in S. apply (t_pargs d true args H eq_refl (proj2 S)).
   - apply t_pargs_paren. destruct args as [|a r]; [right; reflexivity|left]. apply t_commas; [apply Forall_map; eapply Forall_impl; [|exact H]; intros a0 Ha0; apply Ha0|discriminate].
 Qed.
+(* the brackets of an index or a key, with or without the blanks that keep a long string away from them *)
+Lemma t_brk b xs : trans O xs G -> trans A (brk b xs) G.
+Proof.
+  intros H. unfold brk. destruct b.
+  - apply (trans_cons A OG G); [kwo|]. apply (trans_cons OG O G); [apply (trans_weak O OG O O); [apply OG_O|auto|apply t_sp_O]|].
+    apply (trans_app O G G); [exact H|]. apply (trans_cons G A G); [apply (trans_weak A G A A); [apply G_A|auto|apply t_sp_A]|]. apply t_val. reflexivity.
+  - apply (trans_cons A OG G); [kwo|]. apply (trans_app OG G G); [apply (trans_weak O OG G G); [apply OG_O|auto|exact H]|].
+    apply (trans_weak A G G G); [apply G_A|auto|apply t_val; reflexivity].
+Qed.
 Theorem t_pexp : forall e d, trans O (pexp d e) G.
 Proof.
   induction e using exp_ind'; intros d; cbn [Fmt0.pexp].
@@ -166,8 +175,7 @@ Proof.
   - (* long string *) apply (trans_weak A O G G); [apply O_A|auto|apply t_val; reflexivity].
   - (* p.n *) apply (trans_app O G G); [apply IHe|]. apply (trans_cons G OG G); [apply (trans_weak A G OG OG); [apply G_A|auto|kwo]|].
     apply (trans_weak A OG G G); [intros s0 H0; apply (O_A s0 (OG_O s0 H0))|auto|apply t_val; reflexivity].
-  - (* p[k] *) apply (trans_app O G G); [apply IHe1|]. apply (trans_cons G OG G); [apply (trans_weak A G OG OG); [apply G_A|auto|kwo]|].
-    apply (trans_app OG G G); [apply (trans_weak O OG G G); [apply OG_O|auto|apply IHe2]|]. apply (trans_weak A G G G); [apply G_A|auto|apply t_val; reflexivity].
+  - (* p[k] *) apply (trans_app O G G); [apply IHe1|]. apply (trans_weak A G G G); [apply G_A|auto|]. apply t_brk. apply IHe2.
   - (* f(args) *) apply (trans_app O G G); [apply IHe|]. apply t_pargs_any. exact H.
   - (* o:m(args) *) apply (trans_app O G G); [apply IHe|]. apply (trans_cons G OG G); [apply (trans_weak A G OG OG); [apply G_A|auto|kwo]|].
     apply (trans_cons OG G G); [apply (trans_weak A OG G G); [intros s0 H0; apply (O_A s0 (OG_O s0 H0))|auto|apply t_val; reflexivity]|].
@@ -192,9 +200,7 @@ Proof.
   - (* n = x *) apply (trans_cons O G G); [apply (trans_weak A O G G); [apply O_A|auto|apply t_val; reflexivity]|].
     apply (trans_cons G A G); [apply (trans_weak A G A A); [apply G_A|auto|apply t_sp_A]|]. apply (trans_cons A OG G); [kwo|].
     apply (trans_cons OG O G); [apply (trans_weak O OG O O); [apply OG_O|auto|apply t_sp_O]|]. apply IHe.
-  - (* [k] = x *) apply (trans_cons O OG G); [apply (trans_weak A O OG OG); [apply O_A|auto|kwo]|].
-    apply (trans_app OG G G); [apply (trans_weak O OG G G); [apply OG_O|auto|apply IHe1]|].
-    apply (trans_cons G G G); [apply (trans_weak A G G G); [apply G_A|auto|apply t_val; reflexivity]|].
+  - (* [k] = x *) apply (trans_app O G G); [apply (trans_weak A O G G); [apply O_A|auto|apply t_brk; apply IHe1]|].
     apply (trans_cons G A G); [apply (trans_weak A G A A); [apply G_A|auto|apply t_sp_A]|]. apply (trans_cons A OG G); [kwo|].
     apply (trans_cons OG O G); [apply (trans_weak O OG O O); [apply OG_O|auto|apply t_sp_O]|]. apply IHe2.
   - (* a table over several lines: every line is behind a line break, every field ends before a comma *)
